@@ -126,3 +126,43 @@ PROPS["C20"] = dict(
                  "UseSchema=false"],
     design_ref="DESIGN.md §5 C20",
 )
+
+PROPS["C15"] = dict(
+    title="Three-way merge honours the basic merge laws",
+    modules=["Kust.Props.C15"],
+    theorems=["Kust.C15.scalar_local", "Kust.C15.scalar_upstream", "Kust.C15.scalar_same", "Kust.C15.scalar_removed_upstream",
+              "Kust.C15.scalar_added_upstream", "Kust.C15.nalist_local", "Kust.C15.nalist_upstream",
+              "Kust.C15.map_missing_dest_creates_empty", "Kust.C15.alist_missing_dest_creates_empty",
+              "Kust.C15.Law1_full_false", "Kust.C15.Law2_full_false", "Kust.C15.Witness.scalar_type_not_updated", "Kust.C15.ser0_refl"],
+    components=["walk.merge3"],
+    oracle=True,
+    n_corr={"quick": 3000, "thorough": 40000}, n_oracle={"quick": 500, "thorough": 6000},
+    technique="Lean 4 proof on a transliterated walker+merge3 visitor (leaf-decision laws for all inputs; kernel-evaluated refutations of the full laws) + Go/Lean correspondence of merge3 + law oracle on the real code with finding recognisers",
+    level_text="The full laws are FALSE of the code: Law1_full/Law2_full are refuted in Lean by kernel-evaluated witnesses that replay on the implementation (known "
+               "findings C15-K1..K4). Proved (partial): the scalar and atomic-list decisions satisfy all three laws and the one-sided clauses on null-free inputs "
+               "for every `ser` that is reflexive; the two container decisions that break the laws are characterised exactly. The walker recursion itself is tied "
+               "by correspondence (0 disagreements on 12k generated triples), not proved law-by-law.",
+    level_note=COMMON_NOTE + "RNode.String() (serialised-text comparison) is a parameter `ser` assumed reflexive; the walker's composition of leaf decisions is validated by correspondence and the law oracle, not proved.",
+    assumptions=["ser reflexive", "documents without explicit nulls (a null means 'clear' in merge3)"],
+    design_ref="DESIGN.md §5 C15",
+)
+
+PROPS["C04"] = dict(
+    title="Strategic-merge patches follow the Kubernetes merge rules",
+    modules=["Kust.Props.C04"],
+    theorems=["Kust.C04.directive_absent", "Kust.C04.directive_map", "Kust.C04.directive_unknown", "Kust.C04.elision_keeps_other_fields",
+              "Kust.C04.scalar_patch_wins", "Kust.C04.scalar_unmentioned_kept", "Kust.C04.atomic_list_replaced",
+              "Kust.C04.atomic_list_unmentioned_kept", "Kust.C04.map_null_clears", "Kust.C04.keyed_list_null_clears", "Kust.C04.map_added",
+              "Kust.C04.Witness.patched_scalar_keeps_quoting"],
+    components=["walk.merge2", "fns.setelem", "fns.setfield"],
+    oracle=True,
+    n_corr={"quick": 3000, "thorough": 40000}, n_oracle={"quick": 1000, "thorough": 15000},
+    technique="Lean 4 proof of each merge decision and of directive detection/elision on a transliterated walker+merge2 model + Go/Lean correspondence of merge2 (aliasing quirks included) + differential oracle against k8s.io/apimachinery strategicpatch (reference equality up to keyed-list order, idempotence, frame)",
+    level_text="Theorems (all inputs): the decision taken at every node kind is the rule the property states (patch scalar wins, atomic lists replaced, null/`$patch: delete` "
+               "remove, `$patch: replace` replaces, absent content added, unknown directive is an error) and elision removes only the directive. The walker's "
+               "composition over whole documents is tied by correspondence (0 disagreements) and compared on the real code with the Kubernetes reference "
+               "implementation; idempotence and frame are checked by that oracle and by kernel-evaluated instances, not proved in general.",
+    level_note=COMMON_NOTE + "OpenAPI schema is a parameter (merge keys of generated kinds are read from the real openapi package per case); multi-key merge lists (ports) are outside the model and covered by the oracle only.",
+    assumptions=["schema facts supplied per case by the real openapi package", "reference = k8s.io/apimachinery v0.29.0 strategicpatch with k8s.io/api types"],
+    design_ref="DESIGN.md §5 C04",
+)
